@@ -4,29 +4,31 @@
 names are inherited from whoever nests them.
 """
 from dataclasses import dataclass, field
+
+from sim.pool.base import StableHashMeta
 from typing import Optional
 
 
 @dataclass
-class Leaf:
+class Leaf(metaclass=StableHashMeta):
     v: str = field(default="", metadata={"type": "Element"})
     n: Optional[int] = field(default=None, metadata={"type": "Attribute"})
 
 
 @dataclass
-class Child:
+class Child(metaclass=StableHashMeta):
     x: str = field(default="", metadata={"type": "Element"})
     y: Optional[int] = field(default=None, metadata={"type": "Element"})
 
 
 @dataclass
-class Mid:
+class Mid(metaclass=StableHashMeta):
     leaf: Optional[Leaf] = field(default=None, metadata={"type": "Element"})
     label: str = field(default="", metadata={"type": "Element"})
 
 
 @dataclass
-class ParentA:
+class ParentA(metaclass=StableHashMeta):
     class Meta:
         name = "parentA"
         namespace = "urn:a"
@@ -37,7 +39,7 @@ class ParentA:
 
 
 @dataclass
-class ParentB:
+class ParentB(metaclass=StableHashMeta):
     class Meta:
         name = "parentB"
         namespace = "urn:b"
@@ -48,7 +50,7 @@ class ParentB:
 
 
 @dataclass
-class ParentN:
+class ParentN(metaclass=StableHashMeta):
     """No namespace at all."""
 
     class Meta:
@@ -59,7 +61,7 @@ class ParentN:
 
 
 @dataclass
-class WrapA:
+class WrapA(metaclass=StableHashMeta):
     class Meta:
         name = "wrapA"
         namespace = "urn:a"
@@ -71,7 +73,7 @@ class WrapA:
 
 
 @dataclass
-class WrapB:
+class WrapB(metaclass=StableHashMeta):
     class Meta:
         name = "wrapB"
         namespace = "urn:b"
@@ -83,7 +85,7 @@ class WrapB:
 
 
 @dataclass
-class Node:
+class Node(metaclass=StableHashMeta):
     """Self-referential, no namespace."""
 
     name: str = field(default="", metadata={"type": "Attribute"})
@@ -91,7 +93,7 @@ class Node:
 
 
 @dataclass
-class TreeA:
+class TreeA(metaclass=StableHashMeta):
     class Meta:
         name = "treeA"
         namespace = "urn:a"
@@ -100,7 +102,7 @@ class TreeA:
 
 
 @dataclass
-class TreeB:
+class TreeB(metaclass=StableHashMeta):
     class Meta:
         name = "treeB"
         namespace = "urn:b"
